@@ -19,6 +19,7 @@ mod lightfs;
 mod mutate;
 mod tracer;
 mod vg;
+mod wacc;
 
 use std::{
     collections::HashMap,
@@ -306,6 +307,17 @@ fn main() {
             bad.push((format!("{}/{name}", a.name), (ai, c)));
         }
     }
+    // ---- witnessed accumulators (IVC step): name counts on both sides of 10
+    {
+        let shapes: Vec<(usize, usize, usize, bool)> = if cx.tier.is_thorough() {
+            vec![(1, 1, 2, true), (6, 4, 2, true), (9, 3, 2, true), (10, 3, 2, true), (11, 2, 2, true), (12, 4, 2, true), (3, 11, 2, true), (12, 12, 2, true), (11, 2, 3, true), (11, 2, 1, true), (12, 4, 2, false)]
+        } else {
+            vec![(11, 2, 2, true), (3, 11, 2, true)]
+        };
+        let wcases: Vec<(String, (usize, usize, usize, bool))> = shapes.into_iter().map(|s| (format!("wacc/{}f+{}p/x{}/{}", s.0, s.1, s.2, if s.3 { "distinct" } else { "equal" }), s)).collect();
+        cx.run_cases("e-witnessed-accumulators", &wcases, |(f, p, n, d)| wacc::eval(*f, *p, *n, *d, seed, thorough));
+    }
+
     cx.run_cases("d-invalid-inner-proof", &bad, |(ai, c)| agg::eval_inner_bad(&aggs[*ai], c));
     // mutations of the aggregated proof
     let mut dcases = vec![];
